@@ -1,0 +1,25 @@
+//go:build verif
+
+/*
+Copyright SecureKey Technologies Inc. All Rights Reserved.
+
+SPDX-License-Identifier: Apache-2.0
+*/
+
+package batch
+
+// VerifProcessAvailable lets the verification harness drive one processing round of the writer
+// (what the monitor tick / batch timeout tick do) without real timers.
+func (r *Writer) VerifProcessAvailable(forceCut bool) uint {
+	return r.processAvailable(forceCut)
+}
+
+// VerifTickHook, when set (before Start), is called at the start of every processing round with the
+// forceCut flag of that round.
+var VerifTickHook func(forceCut bool) //nolint:gochecknoglobals
+
+func verifTick(forceCut bool) {
+	if h := VerifTickHook; h != nil {
+		h(forceCut)
+	}
+}
